@@ -53,14 +53,18 @@ def report(chk, batch, res, label, extra=None):
                                                        'export': batch.cases[fi].name, 'params': batch.cases[fi].params, 'result': batch.cases[fi].result}, 'implementation crashed/hung: ' + line)
             return False
         if res.get('stage') == 'compile' and res.get('bad_funcs'):
+            attributed = 0
             for fi in res['bad_funcs'][:5]:
                 k = fi - len(batch.imports)
                 if 0 <= k < len(batch.cases):
                     c = batch.cases[k]
+                    attributed += 1
                     chk.violation('%s|compile-error|%s' % (label, c.desc), {'kind': 'program', 'desc': c.desc, 'export': c.name, 'params': c.params, 'result': c.result,
                                   'inputs': '-', 'stderr': res.get('stderr'), 'imports': [list(i) for i in batch.imports], 'extra': extra,
                                   'wasm_b64z': base64.b64encode(zlib.compress(batch.wasm)).decode()}, 'generated C does not compile for body: ' + c.desc)
-            return False
+            if attributed:
+                return False
+            # the compile error sits in a function that is not one of the enumerated cases (a helper, a callee): never let it pass silently
         chk.violation(key, {'kind': 'pipeline', 'stage': res.get('stage'), 'stderr': res.get('stderr'), 'cmd': res.get('cmd'),
                             'wasm_b64z': base64.b64encode(zlib.compress(batch.wasm)).decode(), 'extra': extra},
                       'pipeline stage %s failed: %s' % (res.get('stage'), (res.get('stderr') or '')[-300:]))
